@@ -16,6 +16,7 @@
 import MptModel.Impl.Ring
 import MptModel.Impl.ConvTable
 import MptModel.Generated.ConvInt
+import MptModel.Generated.ConvText
 import MptModel.Spec.Scalar
 import MptModel.Spec.Float
 
@@ -311,49 +312,146 @@ abbrev TextRes := Res (Option Nat × Nat)
 def noConversion (s : List Nat) : TextRes :=
   if s.all isSpace then .ok (none, 0) else .err .BadType
 
-/-- the `switch (vlen)` of `_mpt_convert_int/_uint`: supported widths and their limits -/
-def widthOK (vlen : Nat) : Bool := vlen = 1 || vlen = 2 || vlen = 4 || vlen = 8
-def sLo (vlen : Nat) : Int :=
-  if vlen = 1 then -128 else if vlen = 2 then -32768 else if vlen = 4 then -2147483648 else -9223372036854775808
-def sHi (vlen : Nat) : Int :=
-  if vlen = 1 then 127 else if vlen = 2 then 32767 else if vlen = 4 then 2147483647 else 9223372036854775807
-def uHi (vlen : Nat) : Int :=
-  if vlen = 1 then 255 else if vlen = 2 then 65535 else if vlen = 4 then 4294967295 else 18446744073709551615
-def wMod (vlen : Nat) : Int :=
-  if vlen = 1 then 256 else if vlen = 2 then 65536 else if vlen = 4 then 4294967296 else 18446744073709551616
+/-- what the tests after the `strto*` call see -/
+structure TextCtx where
+  tmp : Src          -- the value returned
+  ty : CTy           -- its C type
+  erange : Bool      -- `errno == ERANGE`
+  minus : Bool       -- the text has a minus sign
 
-/-- `_mpt_convert_int(val, vlen, src, base)` -/
-def convertInt (vlen : Nat) (s : List Nat) (base : Nat) (dest : Bool) : TextRes :=
-  if s = [] then .ok (none, 0)
-  else if (strtoimax s base).consumed = 0 then noConversion s
-  else if (strtoimax s base).erange then .err .BadValue
-  else if !widthOK vlen then .err .BadType
-  else if (strtoimax s base).value < sLo vlen ∨ (strtoimax s base).value > sHi vlen then .err .BadValue
-  else .ok (if dest then some ((strtoimax s base).value % wMod vlen).toNat else none, (strtoimax s base).consumed)
+def TextAtom.eval (c : TextCtx) : TextAtom → Res Bool
+  | .erange => .ok c.erange
+  | .minus => .ok c.minus
+  | .rangeArg => .ok false
+  | .val a => a.eval c.ty c.tmp
 
-/-- `_mpt_convert_uint(val, vlen, src, base)` -/
-def convertUint (vlen : Nat) (s : List Nat) (base : Nat) (dest : Bool) : TextRes :=
-  if s = [] then .ok (none, 0)
-  else if (strtoumax s base).consumed = 0 then noConversion s
-  else if (strtoumax s base).erange then .err .BadValue
-  else if (scanNumber s base).1 then .err .BadValue         -- explicit minus sign
-  else if !widthOK vlen then .err .BadType
-  else if (strtoumax s base).value > uHi vlen then .err .BadValue
-  else .ok (if dest then some ((strtoumax s base).value % wMod vlen).toNat else none, (strtoumax s base).consumed)
+def evalTConj (c : TextCtx) : List TextAtom → Res Bool
+  | [] => .ok true
+  | a :: as =>
+    match a.eval c with
+    | .ok true => evalTConj c as
+    | r => r
 
-/-- `mpt_convert_number(src, fmt, dest)` for the integer target codes ('c' and the floating codes are
-    not modelled: `.null`) -/
+def evalTDisj (c : TextCtx) : List (List TextAtom) → Res Bool
+  | [] => .ok false
+  | x :: xs =>
+    match evalTConj c x with
+    | .ok false => evalTDisj c xs
+    | r => r
+
+def evalTGuards (c : TextCtx) : List TextGuard → Res Unit
+  | [] => .ok ()
+  | g :: gs =>
+    match evalTDisj c g.conds with
+    | .ok false => evalTGuards c gs
+    | .ok true => .err g.err
+    | .err e => .err e
+    | .null => .null | .oob => .oob | .fault => .fault
+
+/-- context of the tests after an integer `strto*` call.  `errno` of the caller is arbitrary: without the reset
+    the ERANGE test may see a stale value (modelled as set). -/
+def intCtx (p : TextParser) (r : StrTo) (minus : Bool) : TextCtx :=
+  { tmp := .int r.value, ty := p.tmpTy, erange := r.erange || !p.errnoReset, minus := minus }
+
+/-- the `strto*` call of an integer parser -/
+def strtoResult (p : TextParser) (s : List Nat) (base : Nat) : Option StrTo :=
+  if p.strto = "strtoimax" then some (strtoimax s base)
+  else if p.strto = "strtoumax" then some (strtoumax s base)
+  else none
+
+/-- `_mpt_convert_int/_uint(val, vlen, src, base)` over the generated description `p`.
+    `errno` of the caller is arbitrary: without the reset the ERANGE test may see a stale value (modelled as set). -/
+def runParser (p : TextParser) (vlen : Nat) (s : List Nat) (base : Nat) (dest : Bool) : TextRes :=
+  if s = [] then .ok (none, 0) else
+  match strtoResult p s base with
+  | none => .null
+  | some r =>
+    if r.consumed = 0 then noConversion s else
+    let ctx := intCtx p r (scanNumber s base).1
+    match evalTGuards ctx p.guards with
+    | .ok () =>
+      match p.widths.find? (·.size = vlen) with
+      | none => .err p.dflt
+      | some w =>
+        match evalTGuards ctx w.guards with
+        | .ok () =>
+          if dest then .ok (some (r.value % w.store.modulus).toNat, r.consumed)
+          else if w.guarded then .ok (none, r.consumed)
+          else .fault
+        | .err e => .err e
+        | .null => .null | .oob => .oob | .fault => .fault
+    | .err e => .err e
+    | .null => .null | .oob => .oob | .fault => .fault
+
+/-- `mpt_c[u]intN`: the wrapper passes `sizeof(type)` to its parser and hands the result on -/
+def wrapperTarget (name : String) : Option (TextParser × Nat) :=
+  match Generated.Text.wrappers.find? (·.1 = name) with
+  | none => none
+  | some (_, pn, size) => (Generated.Text.parsers.find? (·.name = pn)).map fun p => (p, size)
+
+/-- `mpt_c[u]intN(val, src, base, NULL)` -/
+def runWrapper (name : String) (s : List Nat) (base : Nat) (dest : Bool) : TextRes :=
+  match wrapperTarget name with
+  | none => .null
+  | some (p, size) => runParser p size s base dest
+
+/-- `mpt_convert_number(src, fmt, dest)` with `fmt = 'c'`: the first non-blank character, if it is printable.
+    (`isspace`/`isgraph` receive a plain `char`; bytes above 0x7f are negative arguments, which glibc's tables
+    cover: neither blank nor printable.) -/
+def convertChar (s : List Nat) (dest : Bool) : TextRes :=
+  let ws := (s.takeWhile isSpace).length
+  match s.dropWhile isSpace with
+  | [] => .ok (none, 0)
+  | c :: _ => if 33 ≤ c ∧ c ≤ 126 then .ok (if dest then some c else none, ws + 1) else .err .BadType
+
+/-- the `switch (fmt)` of `mpt_convert_number` for an integer target: (parser, width, base) -/
+def numberTarget (tgt : Ty) : Res (TextParser × Nat × Nat) :=
+  let code := match Generated.Text.numberAlias with
+    | some (a, b) => if tgt.code = a then b else tgt.code
+    | none => tgt.code
+  match Generated.Text.numberDispatch.find? (·.1 = code) with
+  | none => .err .BadType
+  | some (_, callee, base) =>
+    match wrapperTarget callee with
+    | some (p, size) => .ok (p, size, base)
+    | none => .null
+
+/-- `mpt_convert_number(src, fmt, dest)` for the character and integer target codes (the floating codes go through
+    `runFloatParser`) -/
 def convertNumber (tgt : Ty) (s : List Nat) (dest : Bool) : TextRes :=
-  match tgt with
-  | .b => convertInt 1 s 0 dest
-  | .y => convertUint 1 s 0 dest
-  | .n => convertInt 2 s 0 dest
-  | .q => convertUint 2 s 0 dest
-  | .i => convertInt 4 s 0 dest
-  | .u => convertUint 4 s 0 dest
-  | .x => convertInt 8 s 0 dest
-  | .t => convertUint 8 s 0 dest
+  if tgt = .c then convertChar s dest else
+  match numberTarget tgt with
+  | .ok (p, size, base) => runParser p size s base dest
+  | .err e => .err e
   | _ => .null
+
+/-- result of `strtof/strtod/strtold` (not modelled: an oracle supplies it) -/
+structure StrToF where
+  value : FVal
+  consumed : Nat
+  erange : Bool
+  /-- the consumed numeral denotes a finite number whose correctly rounded value is not finite -/
+  overflow : Bool
+  deriving Repr
+
+def floatCtx (p : TextParser) (val : FVal) (erange : Bool) : TextCtx :=
+  { tmp := .flt val, ty := p.tmpTy, erange := erange || !p.errnoReset, minus := false }
+
+/-- `mpt_cfloat/mpt_cdouble/mpt_cldouble(val, src, NULL)` over the generated description `p` and the oracle `r` -/
+def runFloatParser (p : TextParser) (r : StrToF) (s : List Nat) (dest : Bool) : Res (Option FVal × Nat) :=
+  if s = [] then .ok (none, 0) else
+  if r.consumed = 0 then (if s.all isSpace then .ok (none, 0) else .err .BadType) else
+  let ctx := floatCtx p r.value r.erange
+  match evalTGuards ctx p.guards with
+  | .ok () =>
+    match p.widths with
+    | [w] =>
+      if dest then .ok (some r.value, r.consumed)
+      else if w.guarded then .ok (none, r.consumed)
+      else .fault
+    | _ => .null
+  | .err e => .err e
+  | .null => .null | .oob => .oob | .fault => .fault
 
 /-- `mpt_convert_string(from, type, dest)` for the integer target codes -/
 def convertString (tgt : Ty) (s : List Nat) (dest : Bool) : TextRes :=
